@@ -12,8 +12,9 @@ MCAmounts   == {[neg |-> i < 0, mag |-> IF i < 0 THEN -i ELSE i] : i \in (-AmtRa
 MCFaults    == {"garbage", "altbal", "altcid", "altlock", "wrongtype", "oldstate", "otherkey", "wrongbf", "identity"}
 MCRevKinds  == {"newstate", "wrongbf", "otherchan", "bothwrong"}
 MCNone      == {}
+MCAdv       == {2}
 HonestSpec  == Init /\ [][HonestNext]_vars
 
 \* the view hides the bookkeeping variable `last` (action properties are still checked per transition)
-View == <<cust, led, c2m, m2c, vbs, pend, issued, revealed, nonces, wire, closed>>
+View == <<cust, led, c2m, m2c, vbs, pend, issued, revealed, nonces, wire, closed, spent>>
 =============================================================================
